@@ -76,7 +76,7 @@ type runPlan struct {
 	FailEvery  int
 	PanicEvery int
 	BodyUs     int
-	Setup      string // ok | fail | failnow | panic
+	Setup      string   // ok | fail | failnow | panic
 	TimedSteps []string // stage names of steps every body (and the setup) times with T.Time; "" is a valid name
 }
 
